@@ -231,6 +231,25 @@ pub fn run(o: &mut Out, tier: &str, seed: u64) {
     let hh = Hash(r.arr32()); check(o, &mut r, &hh, "key", "fixed");
     // extra sub-fields (component records of the transaction extra): boundary sizes of every kind, alone and with a suffix
     crate::c16::run_subfield_rt(o, &mut r, if tier == "thorough" { 4000 } else { 400 });
+    // arrays `[T; 8 | 32 | 64]` of VARIABLE-WIDTH elements (the generic array encoder is public; the crate itself only uses fixed-width
+    // elements): reported length == bytes written == the concatenation of the element encodings, also through a short-writing sink
+    { fn arr_check<T: Encodable, A: Encodable + ?Sized>(o: &mut Out, a: &[T], whole: &A, what: &str) {
+          let mut w = Vec::new(); let len = whole.consensus_encode(&mut w).unwrap();
+          let mut want = Vec::new(); for x in a { x.consensus_encode(&mut want).unwrap(); }
+          o.direct(len == w.len() && w == want, "C02: array of variable-width elements: reported length == bytes written == concatenation of the elements", what.to_string(), format!("reported {} wrote {}", len, w.len()), format!("{} bytes", want.len()));
+          let mut cw = ChunkWriter { buf: vec![], max: 1 }; let cl = whole.consensus_encode(&mut cw).ok();
+          o.direct(cw.buf == want && cl == Some(want.len()), "C02: array encoder through a short-writing io::Write", what.to_string(), format!("{} bytes, reported {:?}", cw.buf.len(), cl), format!("{} bytes", want.len()));
+          o.stat("array.variable-width"); }
+      for round in 0..6u64 {
+          let v8: [VarInt; 8] = std::array::from_fn(|i| VarInt(if round == 0 { 1 } else { 1u64 << ((7 * (i as u64 + round)) % 64) }));
+          arr_check(o, &v8[..], &v8, &format!("[VarInt; 8] round {}", round));
+          let v32: [VarInt; 32] = std::array::from_fn(|i| VarInt(r.u64_boundary() >> (i % 7)));
+          arr_check(o, &v32[..], &v32, "[VarInt; 32]");
+          let s8: [String; 8] = std::array::from_fn(|i| "x".repeat((i * 37 + round as usize * 11) % 200));
+          arr_check(o, &s8[..], &s8, "[String; 8]");
+          let b64: [Vec<u8>; 64] = std::array::from_fn(|i| vec![7u8; (i * 5 + round as usize) % 140]);
+          arr_check(o, &b64[..], &b64, "[Vec<u8>; 64]");
+      } }
     // the BulletproofPlus proof count is written as one raw byte: counts above 255 cannot round-trip (known finding)
     for n in [0usize, 1, 2, 127, 128, 200, 255, 256, 257, 300] { o.op(format!("c02_bpp_count {}", n), true); }
     // --- families added after the audit (own generator state: the stream of the families above is unchanged) ---
